@@ -2403,7 +2403,12 @@ PPL::Polyhedron::drop_some_non_integer_points(const Variables_Set* vars_p,
     }
     // After changing the system of constraints, the generators
     // are no longer up-to-date and the constraints are no longer
-    // minimized.
+    // minimized; pending constraints (which are only meaningful
+    // with respect to up-to-date generators) become ordinary ones.
+    if (has_pending_constraints()) {
+      con_sys.unset_pending_rows();
+      clear_pending_constraints();
+    }
     clear_generators_up_to_date();
     clear_constraints_minimized();
   }
